@@ -175,7 +175,22 @@ EXTRA_THEOREMS = {
 
 # translator phases: (tool, root module of its agreement theorems)
 TIE_PHASES = [("rs2lean.py", "TranslatedAgree"), ("rs2lean2.py", "TranslatedAgreeB"), ("rs2lean3.py", "TranslatedAgreeC"),
-              ("rs2lean4.py", "TranslatedAgreeD"), ("rs2lean5a.py", "TranslatedAgreeE")]
+              ("rs2lean4.py", "TranslatedAgreeD"), ("rs2lean5a.py", "TranslatedAgreeE"), ("rs2lean5b.py", "TranslatedAgreeF")]
+
+# phase 5b (tools/rs2lean5b.py, Proofs/TranslatedAgreeF*.lean): compare, comparable key, contains
+_CMP = ["compare_encodeSpec_agrees", "compare_jsonb_agrees", "compare_text_agrees", "compare_scalar_agrees", "compare_container_agrees", "keysAreStrings_encodeSpec"]
+_KEY = ["convert_to_comparable_encodeSpec_agrees", "convert_to_comparable_jsonb_agrees", "convert_to_comparable_text_agrees", "scalar_convert_to_comparable_agrees", "key_image"]
+_CON = ["contains_encodeSpec_agrees", "contains_jsonb_doc_agrees", "contains_text_agrees", "contains_jsonb_agrees", "scalar_eq_agrees", "array_contains_agrees", "number_eq_agrees"]
+for _p, _l in {"C04": _CMP, "C14": _KEY + _CMP[:2], "C12": _CON, "C11": ["compare_text_agrees", "contains_text_agrees", "convert_to_comparable_text_agrees"],
+               "C17": ["convert_to_comparable_jsonb_agrees"], "C20": ["compare_encodeSpec_agrees", "convert_to_comparable_encodeSpec_agrees"]}.items():
+    TIE[_p] = TIE[_p] + [x for x in _l if x not in TIE[_p]]
+_GC = ["src/functions.rs::compare_scalar", "src/functions.rs::compare_container", "src/functions.rs::compare_array", "src/functions.rs::compare_object", "src/functions.rs::compare"]
+_GK = ["src/functions.rs::scalar_convert_to_comparable", "src/functions.rs::array_convert_to_comparable", "src/functions.rs::object_convert_to_comparable", "src/functions.rs::convert_to_comparable"]
+_GN = ["src/number.rs::Number::eq", "src/functions.rs::scalar_eq", "src/functions.rs::array_contains", "src/functions.rs::contains_jsonb", "src/functions.rs::contains"]
+TIE_SOURCES.update({n: _GC for n in _CMP[:5]})
+TIE_SOURCES.update({"keysAreStrings_encodeSpec": []})
+TIE_SOURCES.update({n: _GK for n in _KEY})
+TIE_SOURCES.update({n: _GN for n in _CON})
 
 # phase 5a (tools/rs2lean5a.py, Proofs/TranslatedAgreeE*.lean): the read-only accessors and casts
 _ACC = ["get_by_index_agrees", "get_by_name_agrees", "object_keys_agrees", "array_values_agrees", "object_each_agrees", "type_of_agrees",
@@ -202,7 +217,7 @@ def tie_sources(name, functions):
 TRUSTED_BASE = [
     "Lean 4.33.0 kernel (thorough tier re-checks the theorem module with leanchecker)",
     "axioms: only propext, Classical.choice, Quot.sound (audited per theorem by #print axioms on every run); no native_decide, no bv_decide, no user axioms, no sorry",
-    "tools/rs2lean.py + rs2lean2.py + rs2lean3.py + rs2lean4.py + rs2lean5a.py (translators of about 120 functions of /repo/src to Lean: number codec and order, entry words, index arithmetic, byte walkers, iterators, entry patching, escaper, the recursive Decoder of de.rs and Encoder of ser.rs, the builders of builder.rs and eleven byte-level editors / set functions and 31 read-only accessors and casts of functions.rs; regenerated every run) with lean/JsonbModel/RustPrelude*.lean (hand-written meaning of the Rust primitives they emit: integer casts, checked arithmetic, byte conversions, slices, loops as bounded folds, recursion on explicit fuel, BTreeMap as a sorted list, from_utf8 as validUtf8, OrderedFloat); the agreement theorems tie their output to the model",
+    "tools/rs2lean.py + rs2lean2.py + rs2lean3.py + rs2lean4.py + rs2lean5a.py + rs2lean5b.py (translators of about 135 functions of /repo/src to Lean: number codec and order, entry words, index arithmetic, byte walkers, iterators, entry patching, escaper, the recursive Decoder of de.rs and Encoder of ser.rs, the builders of builder.rs and eleven byte-level editors / set functions and 31 read-only accessors and casts, and the compare / comparable-key / contains families of functions.rs; regenerated every run) with lean/JsonbModel/RustPrelude*.lean (hand-written meaning of the Rust primitives they emit: integer casts, checked arithmetic, byte conversions, slices, loops as bounded folds, recursion on explicit fuel, BTreeMap as a sorted list, from_utf8 as validUtf8, OrderedFloat); the agreement theorems tie their output to the model",
     "tools/gen_constants.py (translator constants.rs -> Lean) and the line-protocol glue (lean/JsonbModel/Driver/*.lean, harness/src/wire.rs)",
     "the correspondence check itself: the hand-written implementation model is tied to /repo by sampled differential runs (request stream of this run, see coverage)",
     "modelled, not verified: Rust slice/Vec/integer-cast semantics, BTreeMap ordering, byteorder; the spec layer is my reading of the README and the property text",
